@@ -45,14 +45,16 @@ func verif_contract_Checksum(b []byte) uint16 {
 
 // ---------- loops of the view accessors (C01, C08) ----------
 
-func verif_inv_DHCP4_validateOptions_1() bool            { return true }
-func verif_dec_DHCP4_validateOptions_1(opts []byte) int  { return len(opts) }
-func verif_inv_DHCP4_ParseOptions_1() bool               { return true }
-func verif_dec_DHCP4_ParseOptions_1(opts []byte) int     { return len(opts) }
-func verif_inv_ICMP4Redirect_Addrs_1(i int) bool         { return 0 <= i && i <= 256 }
-func verif_dec_ICMP4Redirect_Addrs_1(i int) int          { return 256 - i }
-func verif_inv_trimNull_1(rangeindex int, d []byte) bool { return -1 <= rangeindex && rangeindex < len(d) }
-func verif_dec_trimNull_1(rangeindex int, d []byte) int  { return len(d) - rangeindex }
+func verif_inv_DHCP4_validateOptions_1() bool           { return true }
+func verif_dec_DHCP4_validateOptions_1(opts []byte) int { return len(opts) }
+func verif_inv_DHCP4_ParseOptions_1() bool              { return true }
+func verif_dec_DHCP4_ParseOptions_1(opts []byte) int    { return len(opts) }
+func verif_inv_ICMP4Redirect_Addrs_1(i int) bool        { return 0 <= i && i <= 256 }
+func verif_dec_ICMP4Redirect_Addrs_1(i int) int         { return 256 - i }
+func verif_inv_trimNull_1(rangeindex int, d []byte) bool {
+	return -1 <= rangeindex && rangeindex < len(d)
+}
+func verif_dec_trimNull_1(rangeindex int, d []byte) int { return len(d) - rangeindex }
 
 func verif_inv_HopByHopExtensionHeader_ParseHopByHopExtensions_1(pos int, data []byte) bool {
 	return 0 <= pos && pos < len(data)
@@ -60,3 +62,16 @@ func verif_inv_HopByHopExtensionHeader_ParseHopByHopExtensions_1(pos int, data [
 func verif_dec_HopByHopExtensionHeader_ParseHopByHopExtensions_1(pos int, data []byte) int {
 	return len(data) - pos
 }
+
+// ---------- NDP option parsing (C01, C08, C14) ----------
+
+func verif_inv_newParseOptions_1(i int, b []byte) bool { return 0 <= i && i <= len(b) }
+func verif_dec_newParseOptions_1(i int, b []byte) int  { return len(b) - i }
+
+func verif_inv_RecursiveDNSServer_unmarshal_1(i int) bool       { return 0 <= i }
+func verif_dec_RecursiveDNSServer_unmarshal_1(i, count int) int { return count - i }
+
+func verif_inv_DNSSearchList_unmarshal_1(i int, raw *RawOption) bool {
+	return raw != nil && 6 <= i && i <= len(raw.Value)
+}
+func verif_dec_DNSSearchList_unmarshal_1(i int, raw *RawOption) int { return len(raw.Value) - i }
